@@ -36,7 +36,9 @@ def run(R):
     sched_signals = set()
     for h in [n for n in ast.walk(drv.node) if isinstance(n, ast.ExceptHandler)]:
         t = q.src(h.type) if h.type is not None else None
-        if t == "StopIteration" and any(q.src(x).endswith(".value") for x in ast.walk(h) if isinstance(x, ast.Attribute)):
+        if t == "StopIteration" and (any(q.src(x).endswith(".value") for x in ast.walk(h) if isinstance(x, ast.Attribute))
+                                     or any(isinstance(x, ast.Call) and q.call_name(x) == "getattr" and len(x.args) >= 2 and q.const_value(x.args[1]) == "value"
+                                            and q.src(x.args[0]) == h.name for x in ast.walk(h))):
             sched_signals.add("StopIteration.value")
         if t == "GeneratorExit" and any(isinstance(x, ast.Attribute) and x.attr == "result" for x in ast.walk(h)):
             sched_signals.add("AsyncTaskResult.result")
